@@ -40,6 +40,12 @@ from mc.core import Acc, exc_text, guarded, h64
 from ref import c15_recipes as R
 from ref import mutfp
 
+# every shard runs in a freshly forked process: load the heavy modules once in the parent, not once per shard
+import deepali.core.functional  # noqa: F401,E402
+import deepali.data  # noqa: F401,E402
+import deepali.losses.functional  # noqa: F401,E402
+import deepali.spatial  # noqa: F401,E402
+
 PROPERTY = "C15"
 RULE = (
     "func: every (function, call variant, aliasing form, D) of the two public functional namespaces; accessor: every "
